@@ -104,11 +104,21 @@ def run_contract(con, timeout_ms=10000, keep_models=True, verbose=False):
             if con.generator is not None:
                 con.generator.install(ip, ctx, st)
             try:
-                ret = ip.run_function(fn, list(st.args), dict(getattr(st, "kwargs", {})), getattr(st, "selfv", None))
+                if isinstance(fn, tuple) and fn[0] == "ast":
+                    import importlib
+                    node, info, _src = extract.find_function(fn[1], fn[2])
+                    ret = ip.run_ast(node, info, vars(importlib.import_module(fn[3])), list(st.args), dict(getattr(st, "kwargs", {})))
+                else:
+                    ret = ip.run_function(fn, list(st.args), dict(getattr(st, "kwargs", {})), getattr(st, "selfv", None))
                 outcome = "return"
                 if con.generator is not None:
                     con.generator.at_end(ip, ctx, st)
-                for label, goal in con.ensures(ctx, st, ret):
+                try:
+                    goals = list(con.ensures(ctx, st, ret))
+                except (AttributeError, TypeError, KeyError, IndexError) as e:
+                    # the result does not even have the shape the postcondition talks about
+                    goals = [("result.has.the.contracted.shape (%s)" % type(e).__name__, z3.BoolVal(False))]
+                for label, goal in goals:
                     ctx.oblige("%s:ensures.%s" % (con.name, label), goal, "ensures")
             except PathEnd as e:
                 if e.kind == "raise":
@@ -212,9 +222,14 @@ def run_canary(con, label, old, new, timeout_ms=10000, where=None):
     some obligation must fail"""
     fn = where() if where is not None else con.target()
     import inspect
-    path = os.path.realpath(inspect.getsourcefile(fn))
-    src, tree = extract.parse_file(path)
-    node, info = extract.function_ast(fn)
+    if isinstance(fn, tuple) and fn[0] == "ast":
+        path = os.path.realpath(os.path.join(extract.REPO, fn[1]))
+        src, tree = extract.parse_file(path)
+        node, info, _ = extract.find_function(fn[1], fn[2])
+    else:
+        path = os.path.realpath(inspect.getsourcefile(fn))
+        src, tree = extract.parse_file(path)
+        node, info = extract.function_ast(fn)
     seg = ast.get_source_segment(src, node)
     if seg.count(old) != 1:
         return {"label": label, "status": "not-applicable", "reason": "pattern occurs %d times in %s" % (seg.count(old), info["qualname"])}
@@ -224,6 +239,10 @@ def run_canary(con, label, old, new, timeout_ms=10000, where=None):
     start = src.index(seg)
     patched = src[:start] + new_seg + src[start + len(seg):]
     saved = extract._FILES[path]
+    base = getattr(con, "_base_discharged", None)
+    if base is None:
+        b = run_contract(con, timeout_ms, keep_models=False)
+        base = con._base_discharged = {k for k, o in b.obligations.items() if o["status"] == "unsat"}
     try:
         t2 = ast.parse(patched)
         for n in ast.walk(t2):
@@ -233,7 +252,7 @@ def run_canary(con, label, old, new, timeout_ms=10000, where=None):
         r = run_contract(con, timeout_ms, keep_models=False)
     finally:
         extract._FILES[path] = saved
-    failed = sorted(r.failed())
+    failed = sorted(k for k in r.failed() if k in base or k.split(":")[-1].startswith("ensures.result.has.the.contracted.shape"))   # newly failing only
     unk = sorted(r.unknown())
     status = "killed" if failed else ("undecided" if (unk or r.undecided) else "survived")
     return {"label": label, "status": status, "failed": failed[:4], "unknown": unk[:4], "undecided": r.undecided[:2]}
